@@ -2,9 +2,9 @@
    J5 wire format.  Only statements, closed by [exact lemma], with Print Assumptions beneath. *)
 From Coq Require Import String List NArith ZArith Bool.
 From J5V.lib Require Import Outcome Json JsonPrint Base64 Civil.
-From J5V.model Require Import CodecTypes CodecEnc CodecEncSpec.
+From J5V.model Require Import CodecTypes CodecEnc CodecEncSpec CodecEnvDerive.
 From J5V.gen Require ReadmeGen EncSwitchGen.
-From J5V.proofs Require Import CodecEncProofs CodecEncLex CodecEncEmbed CodecEncPresence CodecEncSpecDet CodecEncInner.
+From J5V.proofs Require Import CodecEncProofs CodecEncLex CodecEncEmbed CodecEncPresence CodecEncSpecDet CodecEncInner CodecEnvDeriveProofs.
 Import ListNotations.
 Local Open Scope N_scope.
 
@@ -250,6 +250,78 @@ Theorem C08_unset_omitted : forall f env ps m ms k, wire_members f env ps m ms -
   In k (map fst ms) -> exists p v, In p ps /\ p_json p = k /\ prop_present env p m = Some v.
 Proof. exact spec_unset_omitted. Qed.
 Print Assumptions C08_unset_omitted.
+
+(* ---------------------------------------------------------------- the reflector's derivation steps
+   The environment the encoder works on is not only an input: its enum schemas and the client
+   property lists of its objects are RECOMPUTED (model/CodecEnvDerive.v: buildEnum, ClientProperties /
+   nestedClone) from the raw environment of the real reflector (ObjectSchema.Properties with the
+   flatten marks, proto enum value names) and compared with the dump of the real ClientProperties /
+   EnumSchema.Options on every root type of every run (case CEnv, env_derived_b). *)
+Theorem C08_env_derived_decided : forall re e, env_derived_b re e = true ->
+  forall name s, lookup e name = Some s -> exists rs, rlookup re name = Some rs /\ derive_schema re rs = Some s.
+Proof. exact env_derived_sound. Qed.
+Print Assumptions C08_env_derived_decided.
+
+(* "enums as the short option name": the JSON value of enum number n is the name of the first proto
+   value offered with that number (all values, or all but the first under no_default) minus the
+   prefix, the prefix being the first value's name minus UNSPECIFIED *)
+Theorem C08_enum_short_name_derived : forall fmt env r nodefault values v j,
+  (exists s, lookup env r = Some s /\ derive_enum nodefault values = Some s) ->
+  wire_value fmt env (FEnum r) v j ->
+  exists pre n full z rest,
+    values = (pre ++ txt_unspecified, z) :: rest /\ v = VEnum n /\
+    option_by_number (offered nodefault values) n = Some full /\ j = JStr (trim_prefix pre full).
+Proof. exact enum_short_name_derived. Qed.
+Print Assumptions C08_enum_short_name_derived.
+
+(* "flattened objects are inlined into their parent": the client properties of an object are exactly
+   its own unflattened properties and, for each flattened one, the client properties of the child
+   schema with the proto path prefixed ... *)
+Theorem C08_client_properties_exact : forall f re ps,
+  (forall p, In (p, false) ps -> In p (client_props (S f) re ps)) /\
+  (forall p r cps q, In (p, true) ps -> p_ty p = FObject r -> rlookup re r = Some (RObject cps) ->
+     In q (client_props f re cps) -> In (nest p q) (client_props (S f) re ps)) /\
+  (forall x, In x (client_props (S f) re ps) ->
+     (exists b, In (x, b) ps) \/
+     (exists p r cps q, In (p, true) ps /\ p_ty p = FObject r /\ rlookup re r = Some (RObject cps) /\
+                        x = nest p q /\ In q (client_props f re cps))).
+Proof.
+  intros f re ps. split; [intros p; apply client_props_kept|]. split; [intros p r cps q; apply client_props_hoisted|].
+  intros x H. exact (client_props_only (S f) re ps x H).
+Qed.
+Print Assumptions C08_client_properties_exact.
+(* ... so a populated property q of a flattened child is a member of the PARENT's JSON object, under
+   q's own JSON name, read through the flattened field *)
+Theorem C08_flatten_inlined_derived : forall fmt env re ps m ms f p r cps q v,
+  wire_members fmt env (client_props (S f) re ps) m ms ->
+  In (p, true) ps -> p_ty p = FObject r -> rlookup re r = Some (RObject cps) ->
+  In q (client_props f re cps) ->
+  prop_present env (nest p q) m = Some v ->
+  In (p_json q) (map fst ms) /\ p_path (nest p q) = p_path p ++ p_path q.
+Proof. exact flatten_inlined_derived. Qed.
+Print Assumptions C08_flatten_inlined_derived.
+
+(* non-vacuity of the derivation: enum KIND with values KIND_UNSPECIFIED, KIND_A, KIND_KIND_A (short
+   names UNSPECIFIED, A, KIND_A); object R flattens field 2 (object C with a string and an exposed
+   oneof), keeps field 1 *)
+Definition dr_raw : rawenv :=
+  [([82], RObject [(mkProp [101] [1] false false [] (FEnum [75]), false);
+                   (mkProp [99] [2] false true [] (FObject [67]), true)]);
+   ([67], RObject [(mkProp [115] [1] false false [] (FScalar KString), false);
+                   (mkProp [120] [] false false [] (FOneof [88]), false)]);
+   ([88], ROneof [mkProp [97] [2] false true [3] (FScalar KBool); mkProp [98] [3] false true [2] (FScalar KInt32)]);
+   ([75], REnum false [([75;73;78;68;95;85;78;83;80;69;67;73;70;73;69;68], 0%Z); ([75;73;78;68;95;65], 1%Z);
+                      ([75;73;78;68;95;75;73;78;68;95;65], 2%Z)])].
+Example C08_derivation_example :
+  derive_schema dr_raw (RObject [(mkProp [101] [1] false false [] (FEnum [75]), false);
+                                 (mkProp [99] [2] false true [] (FObject [67]), true)]) =
+    Some (SObject [mkProp [101] [1] false false [] (FEnum [75]);
+                   mkProp [115] [2; 1] false false [] (FScalar KString);
+                   mkProp [120] [2] false true [] (FOneof [88])]) /\
+  derive_enum false [([75;73;78;68;95;85;78;83;80;69;67;73;70;73;69;68], 0%Z); ([75;73;78;68;95;65], 1%Z);
+                     ([75;73;78;68;95;75;73;78;68;95;65], 2%Z)] =
+    Some (SEnum [75;73;78;68;95] [([85;78;83;80;69;67;73;70;73;69;68], 0%Z); ([65], 1%Z); ([75;73;78;68;95;65], 2%Z)]).
+Proof. split; vm_compute; reflexivity. Qed.
 
 (* non-vacuity: a small environment (an object with an int64, a flattened string, a oneof
    wrapper and a date), a message for it, hypotheses that hold, and the encoding *)
